@@ -9,6 +9,11 @@ connected to an arbitrary device `d` (any table sizes); `usage` restricts the se
 quantifies over (one user thread; a link is opened only when none is open; only an existing driver reports errors).
 -/
 import CfVerif.Proofs.C02
+import CfVerif.Proofs.C02SyncA
+import CfVerif.Proofs.C02SyncB
+import CfVerif.Proofs.C02SyncC
+import CfVerif.Proofs.C02SyncD
+import CfVerif.Proofs.C02SyncE
 namespace CfVerif.C02
 open Gen.C02
 
@@ -186,5 +191,90 @@ theorem stale_fetcher_counterexample :
 
 /-- the same script on the repaired model is fine (and `trace_wf` covers every script) -/
 example : (wfRun {} (run ⟨true, 0, 0, [true]⟩ Sys.init staleFetcherOps).2).isSome = true := by decide
+
+/-! ## Layer M2: locks, joins, thread death (Model/C02Sync on the interleaving semantics of Base/Sched)
+
+Threads: user, dispatcher, radio driver, parameter updater, latency ping, retry timer.  Resources: `_send_lock`,
+`wait_lock`, the memory write lock, join(ping), join(radio), and the racy reads of `cf.link`.  A scenario fixes
+where the driver reports its (single) error — from its own thread or from inside `send_packet` of one of the sending
+threads — what the user thread does (nothing, `close_link`, a memory write, both) and which further thread runs
+concurrently; `Sched.run` then ranges over EVERY interleaving of the atomic steps of all these threads. -/
+
+namespace M2
+open CfVerif.Sched
+
+/-- the code of this tree has the repairs D2 (lock released in `finally`, error handled after the release, no
+self-join), D3, D4, D22 the model's programs are built from -/
+theorem repaired_D2_D3_D4_D22 : Fix.ofSource = Fix.repaired := by decide
+
+/-- the scenarios proved (each: every interleaving of its threads) -/
+def scenarios : List Scenario :=
+  [ ⟨.upd, .idle, []⟩, ⟨.disp, .idle, []⟩, ⟨.timer, .idle, []⟩, ⟨.userMem, .memWrite, []⟩, ⟨.ping, .idle, [tUpd]⟩,
+    ⟨.ping, .close, []⟩, ⟨.radio, .memWrite, []⟩, ⟨.radio, .idle, [tUpd]⟩, ⟨.none, .close, [tDisp]⟩, ⟨.radio, .close, []⟩ ]
+
+theorem checked : ∀ sc ∈ scenarios, check Fix.ofSource sc 4000 200 = true := by
+  intro sc h
+  simp only [scenarios, List.mem_cons, List.not_mem_nil, or_false] at h
+  rcases h with h | h | h | h | h | h | h | h | h | h <;> subst h
+  · exact chk_A0
+  · exact chk_A1
+  · exact chk_A2
+  · exact chk_A3
+  · exact chk_A4
+  · exact chk_B0
+  · exact chk_B1
+  · exact chk_C0
+  · exact chk_D0
+  · exact chk_E0
+
+/-- **no_thread_death**: after every interleaving, no thread has died (no exception escaped a `run()`):
+not the dispatcher on the `link is None` race (D3), not the parameter threads on the double release (D4), not the
+ping thread joining itself (D2). -/
+theorem no_thread_death (sc : Scenario) (hsc : sc ∈ scenarios) (sch : List Nat) (c : Cfg)
+    (h : Sched.run (machine (progs Fix.ofSource sc)) Cfg.init sch = some c) : noDeath c = true :=
+  (check_sound _ (progs_length _ _) _ _ (checked sc hsc) sch c h).1
+
+/-- **no_deadlock**: after every interleaving, the quiescent disconnected state — every thread has ended or is
+parked outside all locks, no lock is held, the link is gone, the state is DISCONNECTED — is still reachable:
+no thread is blocked for ever on `_send_lock`, `wait_lock`, the memory lock, join(ping) or join(radio). -/
+theorem no_deadlock (sc : Scenario) (hsc : sc ∈ scenarios) (sch : List Nat) (c : Cfg)
+    (h : Sched.run (machine (progs Fix.ofSource sc)) Cfg.init sch = some c) :
+    ∃ sch' c', Sched.run (machine (progs Fix.ofSource sc)) c sch' = some c' ∧ goal (progs Fix.ofSource sc) c' = true :=
+  (check_sound _ (progs_length _ _) _ _ (checked sc hsc) sch c h).2.2
+
+/-- **disconnected_in_bounded_steps**: from every configuration reached by any interleaving, fair (round-robin)
+scheduling reaches the quiescent disconnected state within 200 atomic steps. -/
+theorem disconnected_in_bounded_steps (sc : Scenario) (hsc : sc ∈ scenarios) (sch : List Nat) (c : Cfg)
+    (h : Sched.run (machine (progs Fix.ofSource sc)) Cfg.init sch = some c) :
+    drive (progs Fix.ofSource sc) 200 0 c = true :=
+  (check_sound _ (progs_length _ _) _ _ (checked sc hsc) sch c h).2.1
+
+/-- every thread is blocked (or has ended) and the goal is not reached -/
+def deadlocked (P : Progs) (c : Cfg) : Bool := threads.all (fun t => (stepT P c t).isNone) && !goal P c
+
+/-! ### the unrepaired code (schedules replayed on the real threads under the virtual scheduler by `search()`) -/
+
+/-- D2: the parameter thread's transmission fails; `_link_error_cb` runs under `_send_lock` and joins the ping
+thread, which waits for that lock. -/
+theorem send_lock_deadlock_counterexample :
+    (Sched.run (machine (progs Fix.unrepaired ⟨.upd, .idle, []⟩)) Cfg.init [3, 3, 3, 3, 3, 3, 2, 3, 3, 3, 3, 3, 3, 4, 3]).map (fun c => deadlocked (progs Fix.unrepaired ⟨.upd, .idle, []⟩) c) = some true := by decide
+
+/-- D2: the ping thread's own transmission fails: `Latency.stop()` joins the current thread, RuntimeError. -/
+theorem ping_self_join_counterexample :
+    (Sched.run (machine (progs Fix.unrepaired ⟨.ping, .idle, []⟩)) Cfg.init [4, 4, 4, 4, 4, 2, 4, 4, 4, 4, 4, 4, 4, 4]).map (fun c => !noDeath c) = some true := by decide
+
+/-- D3: `close_link` sets `cf.link = None` between the dispatcher's two reads: AttributeError. -/
+theorem dispatcher_death_counterexample :
+    (Sched.run (machine (progs Fix.unrepaired ⟨.none, .close, [tDisp]⟩)) Cfg.init [0, 0, 0, 0, 0, 1, 2, 0, 0, 1]).map (fun c => !noDeath c) = some true := by decide
+
+/-- D4: `close()` releases `wait_lock` between the parameter thread's acquire and its own release: RuntimeError. -/
+theorem updater_death_counterexample :
+    (Sched.run (machine (progs Fix.unrepaired ⟨.none, .close, [tUpd]⟩)) Cfg.init [0, 0, 0, 0, 0, 2, 0, 0, 3, 0, 3, 3]).map (fun c => !noDeath c) = some true := by decide
+
+/-- D22: the link error reported for a memory write re-acquires the non-reentrant memory lock in the same thread. -/
+theorem mem_lock_self_deadlock_counterexample :
+    (Sched.run (machine (progs Fix.unrepaired ⟨.userMem, .memWrite, []⟩)) Cfg.init [0, 0, 0, 0, 0, 2, 0, 0, 0, 0, 4]).map (fun c => deadlocked (progs Fix.unrepaired ⟨.userMem, .memWrite, []⟩) c) = some true := by decide
+
+end M2
 
 end CfVerif.C02
